@@ -221,6 +221,9 @@ func runC11(c *ev.Case, ctx *lib.Ctx, al []appAVP, cc c11Case) {
 	if (c.I/5)%2 == 1 {
 		cerFlags |= 0x40 // proxiable bit set: must come back unchanged
 	}
+	if (c.I/10)%3 == 2 {
+		cerFlags |= 0x10 // potentially retransmitted (T): a first CER like any other to the receiver
+	}
 	cer := peer.Msg(cerFlags, peer.CodeCE, 0, hbh, e2e, avps...)
 	probe := peer.Msg(0xC0, 272, 4, 77, 78, peer.Str(peer.SessionID, refcodec.UTF8String, "s;1"))
 	// half of the cases deliver the CER and an application request in the same
